@@ -1528,7 +1528,7 @@ func genCacheOps(r *rng, p *plan.Plan, focus, arm string) {
 		}
 		delay := func() int64 { return r.i64(200, 40_000) }
 		t.Acts = []plan.UpAction{{Kind: "reply", DelayUs: delay()}}
-		tcRefresh, twinMiss, leftover := false, false, false
+		tcRefresh, twinMiss, leftover, failFirst := false, false, false, false
 		switch focus {
 		case "C19":
 			// the refresh: slow, failing, negative or truncated
@@ -1573,6 +1573,10 @@ func genCacheOps(r *rng, p *plan.Plan, focus, arm string) {
 			}
 			if r.p(0.15) {
 				t.Acts = append([]plan.UpAction{{Kind: []string{"silent", "fin", "garbage"}[r.intn(3)], Raw: []byte{9}, DelayUs: delay()}}, t.Acts...)
+				// the same question again right after the failure, the upstream
+				// healthy by then: what the proxy answered the failed exchange
+				// with must not have been kept
+				failFirst = t.Acts[0].Kind != "silent" && r.p(0.7)
 			}
 			if a.Rcode == 0 && a.Bits&refdns.BitTC == 0 && r.p(0.12) {
 				// an entry expires; right afterwards - its remains may still sit in
@@ -1654,6 +1658,8 @@ func genCacheOps(r *rng, p *plan.Plan, focus, arm string) {
 				at = t0 + life*1_000_000 + 300_000 + int64(leftoverGap) + int64(i-1)*r.i64(0, 40)
 			case leftover && i < 7:
 				at = t0 + life*1_000_000 + 600_000 + int64(leftoverGap) + r.i64(0, life*700_000)
+			case failFirst && !leftover && !twinMiss && i >= 1 && i <= 3:
+				at = t0 + t.Acts[0].DelayUs + r.i64(20_000, 1_800_000)
 			case twinMiss && i == 1:
 				at = t0 + r.i64(100, 1500) // misses too: the first exchange is still out
 			case twinMiss && i < 5:
